@@ -24,6 +24,12 @@ Proof. exact cyclic_never_returns. Qed.
 Theorem C15_more_fuel_never_hurts : forall nodes fuel t, returns nodes fuel t = true -> returns nodes (S fuel) t = true.
 Proof. exact returns_mono. Qed.
 
+(** the check evaluates [returns] level by level (linear in the size of the graph instead of exponential) *)
+Theorem C15_levels_compute_returns : forall nodes, calls_closed nodes = true ->
+  forall k t, In t (positions nodes) -> returns nodes k t = returns_level nodes k t.
+Proof. exact returns_level_spec. Qed.
+
 Print Assumptions C15_terminates_when_acyclic.
 Print Assumptions C15_recursive_type_never_returns.
 Print Assumptions C15_more_fuel_never_hurts.
+Print Assumptions C15_levels_compute_returns.
